@@ -35,6 +35,17 @@ class _Hostile:
     __str__ = __repr__
 
 
+class _FalsyError(ValueError):
+    """A user exception whose truth value is False (an "error collection" that happens to be empty): the library
+    must decide by `is not None`, never by truthiness."""
+
+    def __bool__(self):
+        return False
+
+    def __len__(self):
+        return 0
+
+
 class SPuppet:
     def __init__(self, world: "SWorld", tid: int, spawned: bool):
         self.world = world
@@ -534,8 +545,11 @@ class SWorld:
         async def hold(p):
             # every third error carries an argument whose repr()/str() raise: user exceptions are arbitrary objects
             # and the library must not depend on being able to print them (deterministic in the op index)
+            # ... and every third one has a false truth value
             if (len(w.ops) // 4) % 3 == 0:
                 p.held = ValueError(b, _Hostile())
+            elif (len(w.ops) // 4) % 3 == 1:
+                p.held = _FalsyError(b)
             else:
                 p.held = ValueError(b)
 
